@@ -304,28 +304,58 @@ impl PartialOrd for Fp {
 def generate_fmt(with_deriv):
     """model of core::fmt::Formatter for rule R6: a ghost trace of output pieces.  Literal text is identified by the
     FNV-1a 64 hash of its UTF-8 bytes (computed by the extractor); float printing itself is outside the model."""
-    part = "Part(Derivative, u64), " if with_deriv else ""
+    part = "Joined(Mx, u64), Mat(Mx), " if with_deriv else ""
     s = f"""
 // ===================== formatter model (C18, rule R6) =====================
 pub enum Piece {{ Lit(u64), Val(real), {part}}}
 #[verifier::external_body] pub struct Fmt {{ v: u8 }}
 pub struct FmtResult {{ pub ok: bool }}
 pub fn fmt_ok() -> (r: FmtResult) {{ FmtResult {{ ok: true }} }}
+// what `{{}}` prints for a value of the type: one piece of the trace
+pub trait Shown {{ spec fn piece(&self) -> Piece; }}
+impl Shown for Sc {{ open spec fn piece(&self) -> Piece {{ Piece::Val(self@) }} }}
+impl Shown for u64 {{ open spec fn piece(&self) -> Piece {{ Piece::Lit(*self) }} }}
 impl Fmt {{
     pub uninterp spec fn trace(&self) -> Seq<Piece>;
     #[verifier::external_body] pub fn lit(&mut self, id: u64) ensures final(self).trace() == old(self).trace().push(Piece::Lit(id)) {{ unimplemented!() }}
-    #[verifier::external_body] pub fn disp(&mut self, x: &Sc) ensures final(self).trace() == old(self).trace().push(Piece::Val(x@)) {{ unimplemented!() }}
+    #[verifier::external_body] pub fn disp<T: Shown>(&mut self, x: &T) ensures final(self).trace() == old(self).trace().push(x.piece()) {{ unimplemented!() }}
 }}
 """
     if with_deriv:
         s += """
-pub open spec fn part_trace(t: Seq<Piece>, d: Derivative, sym: u64) -> Seq<Piece> { if d.present() { t.push(Piece::Lit(LIT_PLUS)).push(Piece::Part(d, sym)) } else { t } }
-impl Derivative {
-    // assumed: Derivative::fmt prints nothing for an absent part and " + " <entries> <symbol> for a present one (its shape match and matrix rendering are outside the model)
-    #[verifier::external_body] pub fn fmt(&self, f: &mut Fmt, symbol: u64) -> (r: FmtResult) ensures final(f).trace() == part_trace(old(f).trace(), *self, symbol) { unimplemented!() }
+// assumed contracts on nalgebra / alloc used by Derivative::fmt (rule R11): shape(), linear indexing (column-major storage),
+// iter().map(T::to_string).collect() yields every entry in storage order, [String]::join, Display of a matrix
+#[verifier::external_body] pub struct Strs { v: u8 }
+#[verifier::external_body] pub struct Joined { v: u8 }
+impl Strs {
+    pub uninterp spec fn src(&self) -> Mx;
+    #[verifier::external_body] pub fn join(&self, sep: u64) -> (r: Joined) ensures r.src() == self.src(), r.sep() == sep { unimplemented!() }
 }
-""".replace("LIT_PLUS", "14090479106711026708u64")
+impl Joined { pub uninterp spec fn src(&self) -> Mx; pub uninterp spec fn sep(&self) -> u64; }
+impl Shown for Joined { open spec fn piece(&self) -> Piece { Piece::Joined(self.src(), self.sep()) } }
+impl<'a> Shown for &'a Mx { open spec fn piece(&self) -> Piece { Piece::Mat(**self) } }
+impl Mx {
+    #[verifier::external_body] pub fn shape(&self) -> (r: (usize, usize)) ensures r.0 == self.nrows(), r.1 == self.ncols() { unimplemented!() }
+    #[verifier::external_body] pub fn lin_ref(&self, k: usize) -> (r: &Sc) requires k < self.nrows() * self.ncols() ensures r@ == self.at(k as int % self.nrows(), k as int / self.nrows()) { unimplemented!() }
+    #[verifier::external_body] pub fn to_strings(&self) -> (r: Strs) ensures r.src() == *self { unimplemented!() }
+}
+pub open spec fn mx_trace(t: Seq<Piece>, m: Mx) -> Seq<Piece> {
+    if m.nrows() == 1 && m.ncols() == 1 { t.push(Piece::Val(m.at(0, 0))) }
+    else if m.nrows() == 1 || m.ncols() == 1 { t.push(Piece::Lit(LIT_OPEN)).push(Piece::Joined(m, LIT_SEP)).push(Piece::Lit(LIT_CLOSE)) }
+    else { t.push(Piece::Mat(m)) }
+}
+pub open spec fn part_trace(t: Seq<Piece>, d: Derivative, sym: u64) -> Seq<Piece> {
+    match d.0 { Some(m) => mx_trace(t.push(Piece::Lit(LIT_PLUS)), m).push(Piece::Lit(sym)), None => t }
+}
+""".replace("LIT_PLUS", "%du64" % fnv(" + ")).replace("LIT_OPEN", "%du64" % fnv("[")).replace("LIT_CLOSE", "%du64" % fnv("]")).replace("LIT_SEP", "%du64" % fnv(", "))
     return s
+
+
+def fnv(text):
+    h = 0xcbf29ce484222325
+    for b in text.encode():
+        h = ((h ^ b) * 0x100000001b3) & 0xFFFFFFFFFFFFFFFF
+    return h
 
 
 PY_UNARY = ["recip", "sqrt", "cbrt", "exp", "exp2", "exp_m1", "ln", "log2", "log10", "ln_1p", "sin", "cos", "tan", "asin", "acos", "atan",
